@@ -9766,7 +9766,7 @@ def _write_node(node, xml_tree=None, viewport_transform=None):
             # Cannot write generic svgelement form
             return
     # Write Transform
-    if hasattr(node, "transform") and not isinstance(node, Group):
+    if hasattr(node, "transform") and not isinstance(node, (Group, Use)):
         t = node.transform
         if viewport_transform:
             t = t * viewport_transform
